@@ -43,6 +43,10 @@ fn rich(name: &str) -> Response {
         .add_attribute("entry", name)
         .add_attribute("second", "")
         .add_event(Event::new("ev").add_attribute("k", "v"))
+        // an event without attributes, an event whose attribute has an empty value, an event of the shortest type
+        .add_event(Event::new("bare"))
+        .add_event(Event::new("half").add_attribute("k", ""))
+        .add_event(Event::new("zz").add_attribute("a", "1").add_attribute("a", "1"))
         .set_data(format!("data-{}", name).into_bytes())
         .add_submessage(sub)
         .add_submessage(SubMsg::reply_on_error(WasmMsg::Execute { contract_addr: "c".into(), msg: Binary::from(b"{}".to_vec()), funds: vec![coin(1, "ua")] }, u64::MAX).with_gas_limit(1))
